@@ -112,4 +112,96 @@ CliqueColObj(n, k, c, E(_, _), Q(_, _), Rc(_, _)) ==
         /\ \A u, v \in 1..n : \A l \in 1..c :
               (u < v /\ E(u, v)) => ~(Rc(u, l) /\ Rc(v, l))            \* colouring is proper
 
+-----------------------------------------------------------------------------
+(* C02 families (G a simple graph on 1..G.n)                                *)
+
+XorP(S, P(_)) == CountP(S, P) % 2 = 1          \* parity of the true ones is odd
+
+\* TseitinFormula(G, charges): E(u,v), u<v an edge.  Charges normalisation as
+\* documented: none given => first vertex odd; short => padded with even;
+\* long => the surplus is ignored.
+TseitinCharge(G, chmode, ch, v) ==
+    IF chmode = "none" THEN v = 1
+    ELSE IF v <= Len(ch) THEN ch[v] ELSE FALSE
+TseitinGroups(G) == << EdgeSet(G) >>
+TseitinObj(G, chmode, ch, E(_, _)) ==
+    \A v \in 1..G.n :
+       XorP(Nbr(G, v), LAMBDA u : IF u < v THEN E(u, v) ELSE E(v, u)) = TseitinCharge(G, chmode, ch, v)
+
+\* number of connected components / closed form for the number of solutions
+RECURSIVE ReachFrom(_, _)
+ReachFrom(G, S) == LET T == S \cup UNION {Nbr(G, v) : v \in S}
+                   IN  IF T = S THEN S ELSE ReachFrom(G, T)
+Components(G) == {ReachFrom(G, {v}) : v \in 1..G.n}
+
+\* GraphColoringFormula(G, k, functional): x(v,c)
+KColorGroups(G, k) == << {<<v, c>> : v \in 1..G.n, c \in 1..k} >>
+KColorObj(G, k, fun, X(_, _)) ==
+    /\ \A v \in 1..G.n : \E c \in 1..k : X(v, c)
+    /\ fun => \A v \in 1..G.n : AtMostOne(1..k, LAMBDA c : X(v, c))
+    /\ \A e \in EdgeSet(G) : \A c \in 1..k : ~(X(e[1], c) /\ X(e[2], c))
+
+\* EvenColoringFormula(G): e(u,v); refused (ValueError) when some degree is odd
+EvenColGroups(G) == << EdgeSet(G) >>
+EvenColDefined(G) == \A v \in 1..G.n : Deg(G, v) % 2 = 0
+EvenColObj(G, E(_, _)) ==
+    \A v \in 1..G.n :
+       2 * CountP(Nbr(G, v), LAMBDA u : IF u < v THEN E(u, v) ELSE E(v, u)) = Deg(G, v)
+
+\* DominatingSet(G, d, alternative): x(v) ; f(v,i) i in 1..d.  The witness is the
+\* set {v : x(v)}: the projections of the models are the dominating sets of size <= d.
+DomGroups(G, d) == << {<<v>> : v \in 1..G.n}, {<<v, i>> : v \in 1..G.n, i \in 1..d} >>
+ClosedNbr(G, v) == Nbr(G, v) \cup {v}
+IsDominating(G, S) == \A v \in 1..G.n : ClosedNbr(G, v) \cap S # {}
+DomWitnesses(G, d) == {S \in SUBSET (1..G.n) : IsDominating(G, S) /\ Cardinality(S) <= d}
+
+\* Tiling(G): x(v); every closed neighbourhood contains exactly one chosen vertex
+TilingGroups(G) == << {<<v>> : v \in 1..G.n} >>
+TilingObj(G, X(_)) == \A v \in 1..G.n : ExactlyOne(ClosedNbr(G, v), X)
+
+\* GraphIsomorphism(G1, G2): x(u,v), u in V1, v in V2 : the graph of an isomorphism
+IsoGroups(G1, G2) == << {<<u, v>> : u \in 1..G1.n, v \in 1..G2.n} >>
+IsoObj(G1, G2, X(_, _)) ==
+    /\ \A u \in 1..G1.n : ExactlyOne(1..G2.n, LAMBDA v : X(u, v))
+    /\ \A v \in 1..G2.n : ExactlyOne(1..G1.n, LAMBDA u : X(u, v))
+    /\ \A u1, u2 \in 1..G1.n : \A v1, v2 \in 1..G2.n :
+          (u1 # u2 /\ X(u1, v1) /\ X(u2, v2)) => (Adj(G1, u1, u2) <=> Adj(G2, v1, v2))
+AutoObj(G, X(_, _)) == IsoObj(G, G, X) /\ \E u \in 1..G.n : ~X(u, u)
+
+\* SubgraphFormula(G, H, induced, symbreak): s(i,j), i in V(H), j in V(G)
+SubgraphGroups(G, H) == << {<<i, j>> : i \in 1..H.n, j \in 1..G.n} >>
+InjMapObj(k, N, incr, S(_, _)) ==
+    /\ \A i \in 1..k : ExactlyOne(1..N, LAMBDA j : S(i, j))
+    /\ \A j \in 1..N : AtMostOne(1..k, LAMBDA i : S(i, j))
+    /\ incr => \A i1, i2 \in 1..k : \A j1, j2 \in 1..N :
+                  (i1 < i2 /\ S(i1, j1) /\ S(i2, j2)) => j1 < j2
+SubgraphObj(G, H, induced, sb, S(_, _)) ==
+    /\ InjMapObj(H.n, G.n, sb, S)
+    /\ \A i1, i2 \in 1..H.n : \A j1, j2 \in 1..G.n :
+          (i1 # i2 /\ S(i1, j1) /\ S(i2, j2)) =>
+              /\ Adj(H, i1, i2) => Adj(G, j1, j2)
+              /\ induced => (Adj(G, j1, j2) => Adj(H, i1, i2))
+
+\* CliqueFormula(G, k, symbreak): s(i,j), i in 1..k
+CliqueGroups(G, k) == << {<<i, j>> : i \in 1..k, j \in 1..G.n} >>
+CliqueObj(G, k, sb, S(_, _)) ==
+    /\ InjMapObj(k, G.n, sb, S)
+    /\ \A i1, i2 \in 1..k : \A j1, j2 \in 1..G.n :
+          (i1 # i2 /\ S(i1, j1) /\ S(i2, j2)) => Adj(G, j1, j2)
+
+\* BinaryCliqueFormula(G, k, symbreak): y(i,b); code c (0-based) stands for vertex c+1
+BinCliqueGroups(G, k) == << {<<i, b>> : i \in 1..k, b \in 0..(BPHPBits(G.n) - 1)} >>
+BinCliqueObj(G, k, sb, Y(_, _)) ==
+    LET h(i) == BinCode(Y, i, BPHPBits(G.n) - 1)
+    IN  /\ \A i \in 1..k : h(i) < G.n
+        /\ \A i, j \in 1..k : i # j => (h(i) # h(j) /\ Adj(G, h(i) + 1, h(j) + 1))
+        /\ sb => \A i, j \in 1..k : i < j => h(i) < h(j)
+
+\* RamseyWitnessFormula(G, k, s): C ; s(i,j).  Documented: satisfiable iff G has a
+\* k-clique or an s-independent set.
+HasClique(G, k) == \E S \in SUBSET (1..G.n) :
+                      Cardinality(S) = k /\ \A u, v \in S : u # v => Adj(G, u, v)
+HasIndep(G, k)  == \E S \in SUBSET (1..G.n) :
+                      Cardinality(S) = k /\ \A u, v \in S : u # v => ~Adj(G, u, v)
+
 =============================================================================
